@@ -12,14 +12,24 @@ Open Scope N_scope.
         forall A tr, valid A -> accepts A tr -> every saved (flow, (name, category)) is result_covered.
       What is missing for it: open_ticket declares the result it saves.  *)
 
-(* every result a step of an accepted execution saves is in the inspection of the run's flow under the key the
-   run stores it under, with its category listed (or saved without category) — for flows without open_ticket *)
+(* corollary — every result a step of an accepted execution saves is in the inspection of the run's flow under the
+   key the run stores it under, with its category listed (or saved without category): for flows without open_ticket *)
 Theorem c20_results_covered_partial : forall A tr,
   forallb valid_flow A = true -> no_open_ticket A = true -> accepts A tr = true ->
   forall fid nc, In (fid, nc) (saved_results tr) ->
   exists f, lookup_flow A fid = Some f /\ result_covered f nc.
 Proof. exact results_covered_partial. Qed.
 Print Assumptions c20_results_covered_partial.
+
+(* the sharp form: every result a step of an accepted execution saves is covered by the inspection of the run's flow,
+   OR it is exactly F16 — saved by an open_ticket action of that flow under its result_name.  Other results of
+   sessions whose flows contain an open_ticket somewhere are covered like all others. *)
+Theorem c20_results_covered_or_f16 : forall A tr,
+  forallb valid_flow A = true -> accepts A tr = true ->
+  forall fid nc, In (fid, nc) (saved_results tr) ->
+  exists f, lookup_flow A fid = Some f /\ (result_covered f nc \/ saved_by_open_ticket f nc).
+Proof. exact results_covered_or_f16. Qed.
+Print Assumptions c20_results_covered_or_f16.
 
 (* witness: a flow with one open_ticket action; its execution saves "Ticket", the inspection has no results *)
 Theorem c20_results_covered_refuted :
